@@ -15,6 +15,7 @@
 import PurlModel.Lemmas.QualsStep
 import PurlModel.Lemmas.QualsSpec
 import PurlModel.Lemmas.BinSearch
+import PurlModel.Lemmas.IterOps
 import PurlModel.Lemmas.RustUnicode
 namespace Purl.C11
 open Purl Purl.Generated
@@ -287,6 +288,41 @@ theorem insert_commutes (q : Quals) (hq : QInv q) (k₁ v₁ k₂ v₂ : Str) (h
   · exact absurd (e1.symm.trans e2) hne
   · intro e; exact absurd e hne
   · intro e; exact absurd e.symm hne
+
+/-! ### iterators used piecemeal (`ItOp`: `next`, `next_back`, `nth`, `nth_back`, `len` in any order) -/
+
+/-- No pair is yielded twice and none is invented, whatever calls are made on an iterator and in whatever order:
+the pairs yielded so far together with those still in the iterator form a sub-multiset of the collection — and as the
+keys of a collection are distinct (`QInv`), every pair is yielded at most once. -/
+theorem iterator_never_repeats (q : Quals) (ops : List ItOp) (z : Str × Str) :
+    (yielded (itRun q ops).1 ++ (itRun q ops).2).count z ≤ q.count z :=
+  itRun_count_le q ops z
+
+/-- what is left in an iterator is always a contiguous part of the collection (so it is still ascending), and
+whatever one call yields is one of the pairs it dropped -/
+theorem iterator_window (rem : Quals) (op : ItOp) :
+    ∃ a b, rem = a ++ (itStep rem op).2 ++ b ∧ ∀ x, (itStep rem op).1 = .item (some x) → x ∈ a ++ b :=
+  itStep_window rem op
+
+/-- an iterator that has answered `None` is empty (overshooting `nth` / `nth_back` included) -/
+theorem iterator_none_means_exhausted (rem : Quals) (op : ItOp) (h : (itStep rem op).1 = .item none) :
+    (itStep rem op).2 = [] :=
+  itStep_none_empties rem op h
+
+/-- `len()` counts down: a call that yields a pair leaves strictly fewer, no call leaves more -/
+theorem iterator_len_counts_down (rem : Quals) (op : ItOp) :
+    (itStep rem op).2.length ≤ rem.length ∧
+    ∀ x, (itStep rem op).1 = .item (some x) → (itStep rem op).2.length < rem.length :=
+  ⟨itStep_length_le rem op, fun x hx => itStep_some_shrinks rem op x hx⟩
+
+/-- the `Iterator::nth` contract: `nth(n)` is `n` discarded `next()`s and one more -/
+theorem iterator_nth_contract (rem : Quals) (n : Nat) :
+    itStep rem (.nth n) = itStep (itRun rem (List.replicate n .next)).2 .next :=
+  nth_is_repeated_next rem n
+
+/-- a partly consumed iterator, an overshooting `nth_back`, then `len()` (the seeded change C11-r21) -/
+example : itRun [("a".toList, "1".toList), ("b".toList, "2".toList), ("c".toList, "3".toList)]
+    [.next, .nthBack 5, .len] = ([.item (some ("a".toList, "1".toList)), .item none, .len 0], []) := by decide
 
 /-- `Qualifiers::search` is `binary_search_by` of the standard library.  The model's `search` is the
 CONTRACT of that function (a lower-bound scan); `searchBin` is its ALGORITHM as the linked std implements
